@@ -1,0 +1,40 @@
+//go:build verif
+
+package clock
+
+import (
+	"context"
+	"time"
+
+	"github.com/buildbarn/bb-storage/pkg/clock"
+)
+
+// VerifSuspendableClockDump returns the accounting state of a
+// SuspendableClock. It only reads; it must be called while no goroutine
+// is inside a critical section of the clock (i.e., at quiescent points
+// of the model checker).
+func VerifSuspendableClockDump(c *SuspendableClock) (suspensionCount int, unsuspensionStart time.Time, totalUnsuspended time.Duration) {
+	return c.suspensionCount, c.unsuspensionStart, c.totalUnsuspended
+}
+
+// VerifSuspendableContextDump returns the completion state stored in a
+// Context created by SuspendableClock.NewContextWithTimeout(). ok is
+// false if ctx is not such a Context. Read-only, quiescent points only.
+func VerifSuspendableContextDump(ctx context.Context) (err error, unsuspendedDuration time.Duration, ok bool) {
+	sc, ok := ctx.(*suspendableContext)
+	if !ok {
+		return nil, 0, false
+	}
+	return sc.err, sc.unsuspendedDuration, true
+}
+
+// VerifSuspendableTimerStopped reports whether a Timer created by
+// SuspendableClock.NewTimer() no longer has a stop channel (it fired or
+// was stopped). Read-only, quiescent points only.
+func VerifSuspendableTimerStopped(t clock.Timer) (stopped, ok bool) {
+	st, ok := t.(*suspendableTimer)
+	if !ok {
+		return false, false
+	}
+	return st.stopChannel == nil, true
+}
